@@ -433,6 +433,7 @@ static std::vector<uint32_t> written_refs(NiObject* x, NiHeader& hdr) {
 	return vals;
 }
 
+static std::string g_typed_header_name; // what AddBlock registered for the block under test
 static const char* TYPED_OPS[] = {"DeleteBlock(1)", "DeleteBlock(2)", "SetBlockOrder(swap 1,2)", "SetBlockOrder(reverse)", "PrettySortBlocks", "DeleteBlock(0)"};
 
 static bool typed_build(const std::string& type, const e1::VerCfg& vc, NifFile& nif, NiObject*& x) {
@@ -456,6 +457,7 @@ static bool typed_build(const std::string& type, const e1::VerCfg& vc, NifFile& 
 	x = obj.get();
 	uint32_t id = hdr.AddBlock(std::move(obj));
 	nif.GetRootNode()->childRefs.AddBlockRef(id);
+	g_typed_header_name = hdr.GetBlockTypeStringById(id);
 	return true;
 }
 
@@ -465,6 +467,10 @@ static void typed_unit(const std::string& type, const e1::VerCfg& vc, Stats& st)
 	J cj0 = J::obj().set("typed", type).set("version", vc.name);
 	vf::set_inflight(cj0.dump());
 	if (!typed_build(type, vc, base, x0)) { st.add("typed_not_built"); return; }
+	// the header must name an added block by the name its type is registered (and later looked up) under
+	st.add("transitions");
+	if (g_typed_header_name != type)
+		st.violation(std::string("typed:") + type + ":header-type-name", vf::strf("%s (%s): AddBlock registers the block as '%s'; a reload would create a different type", type.c_str(), vc.name, g_typed_header_name.c_str()), cj0);
 	std::vector<uint32_t> L0 = written_refs(x0, base.GetHeader());
 	size_t nonempty = 0;
 	for (auto v : L0) if (v != NIF_NPOS) nonempty++;
